@@ -48,6 +48,9 @@ PROPS = {
                   [("lr", 12000, 400000)], twins=twins_c08, twin_rel=rel_c08, level="other",
                   variants=[v for v in core.ALL_VARIANTS if v[5] == "1"],
                   explanation="every generated left-recursive case is run on the real generated parser (all 8 LeftRecursion template variants, Memoize on/off) and on the Lean model (full result incl. values, errors, stores, block trace), and — for direct left recursion without predicates — on the plain parser of its iterative twin grammar, which must match the same prefix"),
+    "C09": dict(module="PigeonVerif.Properties.C09", run=tool_check.run_c09, level="other",
+                rule="translation validation of the real ast.Optimize: generated well-formed grammars (leaf rules referenced from several places, nested choices/sequences, adjacent single-rune literals and classes with and without i and ^, adjacent literals, predicates, labels, actions, code predicates, state blocks, throw/recover, random alternate entrypoints) are optimized on an independent copy; original and optimized AST are run by an independent reference PEG interpreter (harness/pvref) on ~12 inputs per entrypoint and compared on acceptance, consumed prefix and the full list of code-block invocations (text, pos, canonical label values); plus entrypoint survival, dangling references, parameter lists, fixpoint",
+                explanation="the optimizer is validated against a reference interpreter on generated grammars (execution); Lean proves each rewrite sound as a law of denotational PEG recognition in every context"),
     "C10": h1prop("PigeonVerif.Properties.C10", P(["val", "errs"]),
                   [("mixed", 6000, 200000), ("state", 2000, 50000), ("lr", 1500, 40000)],
                   twins=twins_c10, twin_rel=rel_c10),
